@@ -1,5 +1,5 @@
 import Iauthd.Proto.Text
-import Iauthd.Addr.Model
+import Iauthd.Proto.AddrIface
 /-
   Model of the IAuth line protocol: modules/iauth_core.c (dispatcher, request table,
   gate, output formatter), modules/iauth_xquery.c (service table, per-client masks,
@@ -252,7 +252,7 @@ def accountBase (acct : Bytes) : Bytes := acct.takeWhile (· != 58)
 /-- the criteria part of `iauth_class_rule_check` -/
 def ruleMatches (svcs : List (Option Svc)) (rule : Rule) (r : Req) : Bool :=
   (match rule.account with | some p => glob p (accountBase r.account) | none => true) &&
-  (rule.bits == 0 || Addr.checkMask r.addr rule.addr rule.bits) &&
+  (rule.bits == 0 || checkMaskC r.addr rule.addr rule.bits) &&
   (match rule.username with | some p => glob p r.authUser | none => true) &&
   (match rule.hostname with | some p => glob p r.hostname | none => true) &&
   (match rule.xreplyOk with | some sname => xreplyOk svcs r sname > 0 | none => true)
